@@ -553,6 +553,9 @@ func (w *c14World) preTrimCoverage() {
 		w.cover("trim.disabled")
 		return
 	}
+	if cm.cfg.lowWater < 0 {
+		w.cover("trim.negative_low_watermark")
+	}
 	if int(cm.connCount.Load()) <= cm.cfg.lowWater {
 		w.cover("trim.at_or_below_low")
 		return
@@ -625,6 +628,10 @@ func c14RandCfg(r *verifh.Rand) c14Cfg {
 		cfg.high = 0
 	case 2:
 		cfg.high = c14HiOff
+	case 3:
+		if r.Bool() {
+			cfg.low = -1 // NewConnManager accepts any int: every eligible connection goes
+		}
 	}
 	cfg.grace = []int64{0, 1, 3, 5, 10, 20}[r.Intn(6)]
 	cfg.res = []int64{1, 2, 5}[r.Intn(3)]
